@@ -8,6 +8,7 @@
 package c10
 
 import (
+	"sync"
 	"context"
 	"crypto/sha256"
 	"fmt"
@@ -224,7 +225,7 @@ func peerKey(i int) *k1.PrivateKey {
 	return k1.PrivKeyFromBytes(h[:])
 }
 
-var peerAlterations = []string{"leaf", "leaf", "leaf", "signed_by_other_share", "other_validator_pubkey", "unknown_pubkey", "share_idx_0", "share_idx_n+1", "share_idx_negative", "zero_signature", "gated_slot", "invalid_duty_type", "wrong_domain", "other_fork"}
+var peerAlterations = []string{"bare_signature_duty", "other_duty_type", "leaf", "leaf", "leaf", "signed_by_other_share", "other_validator_pubkey", "unknown_pubkey", "share_idx_0", "share_idx_n+1", "share_idx_negative", "zero_signature", "gated_slot", "invalid_duty_type", "wrong_domain", "other_fork"}
 
 func TestC10PeerPath(t *testing.T) {
 	vstat.Rule("C10", rulePeer)
@@ -346,6 +347,24 @@ func TestC10PeerPath(t *testing.T) {
 			duty.Slot = (1000/cl.bn.SPE + 3 + uint64(rapid.IntRange(0, 50).Draw(rt, "beyond"))) * cl.bn.SPE
 		case "invalid_duty_type":
 			duty.Type = core.DutyType(rapid.SampledFrom([]int{0, 99}).Draw(rt, "badType"))
+		case "bare_signature_duty":
+			// duty type "signature" is a valid, gater-accepted type whose payload is a bare signature: there
+			// is no object, hence no signing root it could verify for — it must never be admitted from a peer
+			duty.Type = core.DutySignature
+			sigBytes := append(core.Signature{}, data.Signature()...)
+			if rapid.Bool().Draw(rt, "garbageSig") {
+				sigBytes[7] ^= 0x10
+			}
+			data = core.NewPartialSignature(sigBytes, share).SignedData
+		case "other_duty_type":
+			// the valid object of one duty type offered under another (valid, in-window) duty type
+			others := []core.DutyType{core.DutyAttester, core.DutyProposer, core.DutyRandao, core.DutyExit, core.DutyBuilderRegistration, core.DutyPrepareAggregator, core.DutyAggregator, core.DutySyncMessage, core.DutyPrepareSyncContribution, core.DutySyncContribution}
+			ot := others[rapid.IntRange(0, len(others)-1).Draw(rt, "otherDuty")]
+			if ot == duty.Type {
+				rt.Skip("same duty type")
+			}
+			duty.Type = ot
+			detail = ot.String()
 		case "wrong_domain", "other_fork":
 			spec, err := specsign.Of(cl.bn, data)
 			must(err)
@@ -393,4 +412,105 @@ func cls(name string, on bool) string {
 		return name
 	}
 	return ""
+}
+
+// TestC10Batches: the list endpoints accept several submissions in one call. A batch mixes valid
+// submissions with an invalid one (for the same validator and slot as a valid one, or for another
+// validator), in a drawn order. Oracle (the property itself, not "the whole call fails"): every partial
+// signature that reaches a subscriber verifies, for the harness's own signing root of the delivered
+// object, under the public share of (validator, this node's share index).
+var (
+	listOnce     sync.Once
+	listBuilders []int
+)
+
+func TestC10Batches(t *testing.T) {
+	vstat.Rule("C10", "batches: list endpoints called with 2..4 submissions, one of them invalid (same validator and slot as a valid one with altered content / other share / zero signature, or another validator), drawn order; oracle: every partial handed to a subscriber verifies under the public share of its validator and this node's share index; non-trivial = the invalid entry shares validator and slot with a valid one")
+	rapid.Check(t, func(rt *rapid.T) {
+		n := rapid.SampledFrom([]int{3, 4, 6}).Draw(rt, "n")
+		cl := newCluster(n)
+		me := rapid.IntRange(1, n).Draw(rt, "me")
+		listOnce.Do(func() {
+			for i := range builders {
+				if builders[i](t, cl, cl.vals[0], me, 1).batch != nil {
+					listBuilders = append(listBuilders, i)
+				}
+			}
+		})
+		bi := listBuilders[rapid.IntRange(0, len(listBuilders)-1).Draw(rt, "endpoint")]
+		seed := int64(rapid.IntRange(1, 1<<30).Draw(rt, "seed"))
+		vi := rapid.IntRange(0, len(cl.vals)-1).Draw(rt, "validator")
+		v := cl.vals[vi]
+		w := newWiring()
+
+		var items []*submission
+		good := builders[bi](t, cl, v, me, seed)
+		good.signWith(cl.bn, v.shares[me])
+		good.install(w)
+		items = append(items, good)
+		// optional further valid entries of other validators
+		for k := 1; k <= rapid.IntRange(0, 2).Draw(rt, "moreValid"); k++ {
+			ov := cl.vals[(vi+k)%len(cl.vals)]
+			g := builders[bi](t, cl, ov, me, seed)
+			g.signWith(cl.bn, ov.shares[me])
+			g.install(w)
+			items = append(items, g)
+		}
+		// the invalid entry
+		sameKey := rapid.IntRange(0, 2).Draw(rt, "sameValidatorAndSlot") != 0
+		bv := v
+		if !sameKey {
+			bv = cl.vals[(vi+1+rapid.IntRange(0, len(cl.vals)-2).Draw(rt, "otherVal"))%len(cl.vals)]
+		}
+		bad := builders[bi](t, cl, bv, me, seed)
+		bad.signWith(cl.bn, bv.shares[me])
+		bad.install(w)
+		how := rapid.SampledFrom([]string{"content_changed_old_signature", "other_share", "zero_signature", "garbage_signature"}).Draw(rt, "how")
+		switch how {
+		case "content_changed_old_signature":
+			before := bad.snap(cl.bn)
+			leaves := valgen.Leaves(bad.api)
+			l := leaves[rapid.IntRange(0, len(leaves)-1).Draw(rt, "leaf")]
+			l.Mutate(rapid.IntRange(0, 1023).Draw(rt, "bit"))
+			after := bad.snap(cl.bn)
+			if after.ok && after.root == before.root && after.sig == before.sig {
+				rt.Skip("alteration does not change signed content")
+			}
+		case "other_share":
+			bad.signWith(cl.bn, bv.shares[me%n+1])
+		case "zero_signature":
+			*bad.sig() = eth2p0.BLSSignature{}
+		default:
+			sg := bad.sig()
+			sg[5] ^= 0x40
+			sg[70] ^= 0x01
+		}
+		pos := rapid.IntRange(0, len(items)).Draw(rt, "position")
+		items = append(items[:pos], append([]*submission{bad}, items[pos:]...)...)
+
+		comp, rec := newComponent(cl, me, w)
+		var err error
+		func() {
+			defer func() {
+				if r := recover(); r != nil {
+					err = fmt.Errorf("panic: %v", r)
+				}
+			}()
+			err = items[0].batch(comp, items)
+		}()
+		pubs := cl.pubshares()
+		for _, r := range *rec {
+			for pk, p := range r.set {
+				ps, ok := pubs[pk][p.ShareIdx]
+				if !ok || p.ShareIdx != me {
+					rt.Fatalf("ADMITTED: %s batch delivered a partial for %s with share index %d (node share %d)", good.endpoint, pk[:10], p.ShareIdx, me)
+				}
+				if verr := specsign.Verify(cl.bn, ps, p.SignedData); verr != nil {
+					rt.Fatalf("ADMITTED: %s batch (invalid entry %q at position %d of %d, same validator and slot: %v) handed a subscriber a partial for %s that does not verify under its public share: %v (call error: %v)",
+						good.endpoint, how, pos, len(items), sameKey, pk[:10], verr, err)
+				}
+			}
+		}
+		vstat.Case(fmt.Sprintf("batch/%s/%s/%d/%d/%v/%d", good.endpoint, how, pos, len(items), sameKey, seed), sameKey, "batch:"+good.endpoint, "batch_how:"+how, cls("batch_rejected_whole", err != nil), cls("batch_delivered_some", len(*rec) > 0))
+	})
 }
